@@ -173,3 +173,58 @@ def decide(body, sym, names, spec, assume=None, norm=None):
             if len(bad) >= 4:
                 break
     return not bad, {"orderings": n, "paths": len(ps), "counterexamples": bad}
+
+
+def decide_table(body, sym, names, spec, label, select=None, assume=None):
+    """Generalisation of `decide` to functions with non-comparison branches and non-bool results.
+    names:  [(regex on the rendered quantity, short name)];
+    label:  rendered return term -> label (or None to ignore the path);
+    select: opaque branch decisions [(rendered discriminant, value)] -> bool, picks the sub-table looked at;
+    spec:   {short name: int} -> label.
+    On every weak ordering of the quantities the selected paths whose comparisons hold must all carry spec's label,
+    and at least one must exist."""
+    try:
+        ps = paths(body, sym)
+    except NotComparisonOnly as e:
+        return False, "not a loop-free function: %s" % e
+    sel = []
+    for conds, ret in ps:
+        opaque = [(a[1], a[2]) for a, _ in conds if a[0] == "switch"]
+        if any(a[0] == "opaque" for a, _ in conds):
+            return False, "branches on something that is neither a comparison nor a variant: %s" % [a[1] for a, _ in conds if a[0] == "opaque"][:2]
+        if select is None or select(opaque):
+            lab = label(render(ret) if ret is not None else "")
+            if lab is not None:
+                sel.append(([(a, t) for a, t in conds if a[0] != "switch"], lab))
+    if not sel:
+        return False, "no path selected"
+    qs = leaves([(c, None) for c, _ in sel])
+    qmap = {}
+    for q in qs:
+        for rx, nm in names:
+            if re.search(rx, q):
+                qmap[q] = nm
+                break
+    unknown = [q for q in qs if q not in qmap]
+    if unknown:
+        return False, "compares quantities outside the specification: %s" % unknown
+    snames = sorted({nm for _, nm in names})
+    k = max(len(snames), 2)
+    bad = []
+    n = 0
+    for vals in itertools.product(range(k), repeat=len(snames)):
+        senv = dict(zip(snames, vals))
+        if assume and not assume(senv):
+            continue
+        env = {q: senv[qmap[q]] for q in qmap}
+        n += 1
+        labs = set()
+        for conds, lab in sel:
+            if all(ev(a, env) == t for a, t in conds):
+                labs.add(lab)
+        want = spec(senv)
+        if labs != {want}:
+            bad.append({"ordering": senv, "function": sorted(labs), "specification": want})
+            if len(bad) >= 4:
+                break
+    return not bad, {"orderings": n, "paths": len(sel), "counterexamples": bad}
